@@ -1948,7 +1948,10 @@ fn visit_exprs_mut(stmts: &mut Vec<GStmt>, f: &mut dyn FnMut(&mut GExpr)) {
 }
 
 fn random_untyped(rng: &mut Rng) -> GExpr {
-    match rng.below(10) {
+    match rng.below(12) {
+        // members of different types that print alike are different members
+        10 => GExpr::Set(vec![GExpr::Int(1), GExpr::str("1"), GExpr::True, GExpr::str("#true"), GExpr::Null, GExpr::str("#null")]),
+        11 => GExpr::call("length", vec![GExpr::Set(vec![GExpr::Int(7), GExpr::str("7")])]),
         0 => GExpr::Null,
         1 => GExpr::True,
         2 => GExpr::Int(*rng.pick(&[0u32, 7, 4294967295])),
